@@ -6,6 +6,7 @@ CONSTANTS
   PRICE = {6}
   AMOUNT = {5}
   TIME = {1}
+  DupKinds = {0, 1, 2}
   MaxBatch = 3
 INVARIANT Done
 PROPERTIES TProps
